@@ -240,6 +240,7 @@ type fnLockInfo struct {
 	Summary    map[string]heldInfo
 	Reports    []lockReport
 	heldAt     map[ssa.Instruction]map[string]int // must-held (intersection over states): key -> mode
+	keyField   map[string]*types.Var              // lock key -> the lock's field object (nil for non-field locks)
 	Returns    int
 	StatesSeen int
 }
@@ -319,7 +320,7 @@ func (le *LockEngine) translateSummary(calleeFn *ssa.Function, sum map[string]he
 }
 
 func (le *LockEngine) analyse(fn *ssa.Function) *fnLockInfo {
-	fi := &fnLockInfo{Fn: fn, heldAt: map[ssa.Instruction]map[string]int{}}
+	fi := &fnLockInfo{Fn: fn, heldAt: map[ssa.Instruction]map[string]int{}, keyField: map[string]*types.Var{}}
 	if len(fn.Blocks) == 0 {
 		return fi
 	}
@@ -460,6 +461,7 @@ func (le *LockEngine) analyse(fn *ssa.Function) *fnLockInfo {
 						continue
 					}
 					key := le.Aliases.canonKey(pt)
+					fi.keyField[key] = pt.Last()
 					if op == opWait {
 						key = le.Aliases.canonKey(pt.with(condLField(recv)))
 					}
